@@ -7,11 +7,59 @@ comment naming the reason and the Refine lemma that mentions it no longer compil
 obligation counts as broken (the check then searches for a failing input, see DESIGN.md 2.5).
 
 Python int -> Z ; bytes -> list Z ; bool -> bool.
+
+Two translator classes.  `Tr` is the original expression / return-if subset (DESIGN.md 2.3a) and is FROZEN: the three
+files Gen_types.v, Gen_ptypes.v, Gen_consts.v must stay byte-identical.  `TrI` (imperative subset) extends it for the
+targets added later (Gen_base.v prelude, Gen_pgp.v, Gen_tables.v, Gen_packets.v, Gen_fields.v, Gen_cleartext.v,
+Gen_policy.v, Gen_keyring.v).  Every construct below is translated exactly as stated; anything else raises Unsupported.
+
+Imperative subset (TrI)
+  state           a local name is re-bound by `let` at every assignment (x = e, x += e, x.append(o), del x[..]); an `if`
+                  whose branches neither return nor raise becomes  let '(v1, .., vn) := if c then .. else .. in ..  over
+                  the names that are visible afterwards (assigned in a branch and bound before the `if`, or assigned at
+                  the top level of BOTH branches); otherwise the continuation is copied into both branches.
+  raising         with raises=True the result is `gres T` (Gen_base.v): GOk v | GRaise "ExceptionClass".
+                  `raise E(...)` -> GRaise "E".  Expressions that may raise are hoisted, in evaluation order, in front of
+                  the statement containing them:  b[i] (i an integer literal; negative = from the end) -> nth_error /
+                  IndexError;  d[k] on a translated dict -> KeyError;  bytearray([v]) with v not a declared octet ->
+                  ValueError unless 0 <= v < 256;  declared raising atoms (below).  A raising expression under and / or /
+                  a conditional expression is Unsupported (hoisting would change short-circuit evaluation).
+  bytes           bytes(x), bytearray(x) of a bytes value: identity;  bytearray(): [];  bytearray([o1, ..]): the list;
+                  len(x) -> Z.of_nat (length x);  sum(x) -> sumz x;  a + b -> ++;  a == b / a != b -> eqb_bytes;
+                  b'\x00' * n (one-octet literal) -> repeat 0 (Z.to_nat n)  (none when n <= 0);
+                  x.append(o) -> x ++ [o]  only for a declared octet o (bytearray.append raises otherwise).
+  slices          never raise.  x[:k] firstn k;  x[k:] skipn k;  x[j:k] slice j k   (integer literals >= 0);
+                  x[:-k] -> firstn (length x - k) x   (nat subtraction truncates = Python clamps to the empty string);
+                  x[-k:] -> lastn k x = skipn (length x - k) x   (all of x when it is shorter than k);
+                  any other bound (type Z, sign unknown) -> py_upto / py_from / py_slice of Gen_base.v (negative bound
+                  counts from the end, every bound clamped to 0 .. len).
+                  del x[:k] == x = x[k:];  del x[k:] == x = x[:k];  del x[0] -> IndexError on [] else skipn 1;
+                  del name unbinds the name (a later use is Unsupported).
+  hash objects    h = hashlib.new(..) declared as hash object: the octets fed so far ([] at creation); h.update(b) -> h ++ b;
+                  the digest is the opaque hash function applied to them.
+  dict literals   with integer keys and values -> association list (Gen_base.v zassoc / zhas): k in d, d[k] (KeyError).
+  enum tables     IntEnum member lists (`Cls(v)` succeeds exactly for the members); SymmetricKeyAlgorithm.key_size and
+                  cipher(.block_size) dict literals as association lists (block sizes of the `cryptography` classes: LIB_BLOCK_BITS).
+  loops           for x in <declared opaque list>: body re-binding locals  -> fold_left;
+                  for .. in L: if C: raise E                                -> if existsb C L then GRaise "E" else ..;
+                  for x in L: if C: break  else: E   (L declared non-empty) -> match find C L with Some x => .. | None =>
+                                                                               let x := last L .. in E; ..
+  with            `with <declared context manager> as x: body` where the manager yields once and does nothing after the
+                  yield (checked by the target)  ->  x = <yielded value>; body.
+  bool            a == b / a != b on booleans -> Bool.eqb.
+  opaque atoms    per target: a source expression TEMPLATE (holes _1 .. _9) -> a Coq term over the translated holes.  This is
+                  how attribute chains, method calls on objects, primitives (hashlib, _encrypt, _decrypt, derive_key ..) and
+                  random draws become parameters / Section variables of the generated definition.  Raising atoms are
+                  option- or gres-valued and are hoisted like indexing.
+  fields          per target: attributes that are assigned (self.s2k.usage = ..) are tracked like locals, optionally
+                  with the declared semantics of a pinned setter (enum constructor -> ValueError).
+  pinned text     statements a target does not translate are compared with their recorded source text (`pinned`, `skip`,
+                  `effects` = pinned statement standing for a declared state update); each must occur exactly once.
 """
 import ast, os, sys, re
 
 REPO = os.environ.get('VERIF_REPO', '/repo')
-OUT = os.path.join(os.path.dirname(os.path.abspath(__file__)), '..', 'coq', 'Gen')
+OUT = os.environ.get('PY2COQ_OUT') or os.path.join(os.path.dirname(os.path.abspath(__file__)), '..', 'coq', 'Gen')
 
 
 class Unsupported(Exception):
@@ -272,15 +320,18 @@ class TrI(Tr):
     """
 
     def __init__(self, names=None, calls=None, consts=None, atoms=(), ratoms=(), skip=(), octets=(), raises=False,
-                 fields=None, hashobjs=(), lists=None):
+                 fields=None, hashobjs=(), lists=None, effects=None, opaque=()):
         super().__init__(names, calls, consts, raises)
         self.fields = dict(fields or {})      # 'self.s2k.usage' -> (coq name, type): attributes that are assigned, tracked like locals
         self.hashobjs = set(hashobjs)         # local names holding a hashlib object (modelled as the octets fed to it so far)
         self.lists = dict(lists or {})        # source text of an iterable -> (coq term : list Z, element type)
+        self.effects = dict(effects or {})    # exact source text of a statement -> (state variable, coq term of its new value, type)
+        self.opaque = set(opaque)             # names of opaque types (values are only passed around)
         self.atoms = [(tpl(a[0]),) + tuple(a[1:]) for a in atoms]
         self.ratoms = [(tpl(a[0]),) + tuple(a[1:]) for a in ratoms]
-        self.skip = {s: 0 for s in skip}
+        self.skip = {s: set() for s in skip}
         self.octets = set(octets)
+        self.effects_seen = {}
         self.pending = None     # list of (var, option term, exception name) while a statement is being translated
         self.noho = 0           # > 0 inside a short-circuit operand / conditional-expression arm: hoisting is not sound there
         self.cache = {}
@@ -393,6 +444,10 @@ class TrI(Tr):
                 and self.typ(e.left) == 'bytes' and self.typ(e.comparators[0]) == 'bytes':
             s = '(eqb_bytes %s %s)' % (self.expr(e.left), self.expr(e.comparators[0]))
             return s if isinstance(e.ops[0], ast.Eq) else '(negb %s)' % s
+        if isinstance(e, ast.Compare) and len(e.ops) == 1 and isinstance(e.ops[0], (ast.Eq, ast.NotEq)) \
+                and self.typ(e.left) == 'bool' and self.typ(e.comparators[0]) == 'bool':
+            s = '(Bool.eqb %s %s)' % (self.expr(e.left), self.expr(e.comparators[0]))
+            return s if isinstance(e.ops[0], ast.Eq) else '(negb %s)' % s
         if isinstance(e, ast.BoolOp):
             op = 'andb' if isinstance(e.op, ast.And) else 'orb'
             out = self.cond(e.values[0])
@@ -497,8 +552,11 @@ class TrI(Tr):
         if pend and not self.raises: raise Unsupported('expression may raise %s in a function declared total' % pend[0][2])
         return r, pend
 
+    def coqname(self, n):
+        return self.names[n][0] if n in self.names else self.cname(n)
+
     def bind(self, n, t, v, rest, k, pend=()):
-        cn = self.cname(n)
+        cn = self.coqname(n)
         saved = self.names.get(n)
         self.names[n] = (cn, t)
         try:
@@ -514,6 +572,10 @@ class TrI(Tr):
         for s in stmts:
             for n in ast.walk(s):
                 t = None
+                if isinstance(n, ast.stmt) and self.effects and ast.unparse(n) in self.effects:
+                    t = self.effects[ast.unparse(n)][0]
+                    if t not in out: out.append(t)
+                    continue
                 if isinstance(n, ast.Assign) and len(n.targets) == 1 and isinstance(n.targets[0], ast.Name): t = n.targets[0].id
                 elif isinstance(n, ast.Assign) and len(n.targets) == 1 and ast.unparse(n.targets[0]) in self.fields: t = ast.unparse(n.targets[0])
                 elif isinstance(n, ast.AugAssign) and isinstance(n.target, ast.Name): t = n.target.id
@@ -541,8 +603,14 @@ class TrI(Tr):
         s, rest = stmts[0], stmts[1:]
         src = ast.unparse(s)
         if src in self.skip:
-            self.skip[src] += 1
+            self.skip[src].add(id(s))      # (a continuation may be translated more than once: count statements, not visits)
             return self.block(rest, k)
+        if src in self.effects:
+            # a pinned statement whose effect is declared: state variable := term
+            var, val, t = self.effects[src]
+            if var not in self.names or self.names[var][1] != t: raise Unsupported('effect on undeclared state ' + var)
+            self.effects_seen.setdefault(src, set()).add(id(s))
+            return self.bind(var, t, val, rest, k)
         if isinstance(s, ast.Expr) and isinstance(s.value, ast.Constant) and isinstance(s.value.value, str):
             return self.block(rest, k)
         if isinstance(s, ast.Pass):
@@ -560,7 +628,7 @@ class TrI(Tr):
             return '(GRaise "%s"%%string)' % x.id
         if isinstance(s, ast.Assign) and len(s.targets) == 1 and isinstance(s.targets[0], ast.Name):
             (t, v), pend = self.simple(lambda: (self.typ(s.value), self.expr(s.value)))
-            if t not in ('Z', 'bool', 'bytes'): raise Unsupported('assignment of a value of type ' + t)
+            if t not in ('Z', 'bool', 'bytes') and t not in self.opaque: raise Unsupported('assignment of a value of type ' + t)
             return self.bind(s.targets[0].id, t, v, rest, k, pend)
         if isinstance(s, ast.AugAssign) and isinstance(s.target, ast.Name):
             v = ast.BinOp(left=ast.Name(id=s.target.id, ctx=ast.Load()), op=s.op, right=s.value)
@@ -600,6 +668,54 @@ class TrI(Tr):
                 return self.expr(a)
             v, pend = self.simple(f)
             return self.bind(n, 'bytes', '(%s ++ %s)' % (self.names[n][0], v), rest, k, pend)
+        if isinstance(s, ast.Expr) and isinstance(s.value, ast.Call) and self.find_atom(s.value) and self.find_atom(s.value)[0] == 'r':
+            # a call evaluated for its exception only
+            _, pend = self.simple(lambda: self.expr(s.value))
+            return self.wrap(pend, self.block(rest, k))
+        if isinstance(s, ast.With) and len(s.items) == 1 and isinstance(s.items[0].optional_vars, ast.Name) \
+                and self.find_atom(s.items[0].context_expr) and self.find_atom(s.items[0].context_expr)[0] == 'r':
+            # with <declared context manager that yields once and does nothing afterwards> as x: body   ->   x = <yielded value>; body
+            a = ast.fix_missing_locations(ast.copy_location(ast.Assign(targets=[s.items[0].optional_vars], value=s.items[0].context_expr), s))
+            return self.block([a] + s.body + rest, k)
+        if isinstance(s, ast.For) and ast.unparse(s.iter) in self.lists and (s.orelse or any(isinstance(n, ast.Raise) for b in s.body for n in ast.walk(b))):
+            spec = self.lists[ast.unparse(s.iter)]
+            lst, et = spec[0], spec[1]
+            tgt = [s.target] if isinstance(s.target, ast.Name) else list(s.target.elts) if isinstance(s.target, ast.Tuple) else None
+            ets = [et] if isinstance(et, str) else list(et)
+            if tgt is None or not all(isinstance(x, ast.Name) for x in tgt) or len(tgt) != len(ets): raise Unsupported('loop target')
+            if len(s.body) != 1 or not isinstance(s.body[0], ast.If) or s.body[0].orelse or len(s.body[0].body) != 1:
+                raise Unsupported('search loop: body is not a single `if`')
+            saved = {x.id: self.names.get(x.id) for x in tgt}
+            for x, t in zip(tgt, ets): self.names[x.id] = (self.cname(x.id), t)
+            pat = self.cname(tgt[0].id) if len(tgt) == 1 else "'(" + ', '.join(self.cname(x.id) for x in tgt) + ')'
+            try:
+                test, pend = self.simple(lambda: self.cond(s.body[0].test))
+                if pend: raise Unsupported('raising expression in a loop test')
+                act = s.body[0].body[0]
+                kk = (lambda: self.block(rest, k)) if (rest or k is not None) else None
+                if isinstance(act, ast.Raise) and not s.orelse:
+                    # for x in L: if C: raise E     ->   if existsb C L then raise E else continue
+                    r = self.block([act])
+                    for x in tgt:
+                        if saved[x.id] is None: del self.names[x.id]
+                        else: self.names[x.id] = saved[x.id]
+                    saved = {}
+                    return '(if existsb (fun %s => %s) %s then %s else %s)' % (pat, test, lst, r, self.block(rest, k))
+                if isinstance(act, ast.Break) and s.orelse and len(tgt) == 1 and len(spec) > 2:
+                    # for x in L: if C: break   else: E       (L not empty, spec[2] = its first element)
+                    #   ->  match find C L with Some x => rest | None => (x = last element) E; rest
+                    some = self.kont(kk) if kk else None
+                    none = self.block(s.orelse, kk)
+                    if some is None: raise Unsupported('search loop at the end of a function')
+                    x = self.cname(tgt[0].id)
+                    return ('(match find (fun %s => %s) %s with Some %s => %s | None => (let %s := last %s %s in %s) end)'
+                            % (x, test, lst, x, some, x, lst, spec[2], none))
+                raise Unsupported('search loop shape')
+            finally:
+                for x in tgt:
+                    if x.id in saved:
+                        if saved[x.id] is None: self.names.pop(x.id, None)
+                        else: self.names[x.id] = saved[x.id]
         if isinstance(s, ast.For) and not s.orelse and isinstance(s.target, ast.Name) and ast.unparse(s.iter) in self.lists:
             # for x in <opaque list>: body rebinding locals (no return / raise / break)  ->  fold_left over the list
             if has_exit(s.body) or any(isinstance(n, (ast.Break, ast.Continue)) for b in s.body for n in ast.walk(b)):
@@ -687,22 +803,26 @@ class TrI(Tr):
                 if not ex:
                     return self.wrap(pend, self.block(rest, k))     # branches without any visible effect
                 saved = {v: self.names.get(v) for v in ex}
-                for v in ex: self.names[v] = (self.cname(v), types[v])
+                cns = [self.coqname(v) for v in ex]
+                for v, cn in zip(ex, cns): self.names[v] = (cn, types[v])
                 try:
                     body = self.block(rest, k)
                 finally:
                     for v in ex:
                         if saved[v] is None: del self.names[v]
                         else: self.names[v] = saved[v]
-                pat = self.cname(ex[0]) if len(ex) == 1 else "'(" + ', '.join(self.cname(v) for v in ex) + ')'
+                pat = cns[0] if len(ex) == 1 else "'(" + ', '.join(cns) + ')'
                 return self.wrap(pend, '(let %s := (if %s then %s else %s) in\n %s)' % (pat, c, b1, b2, body))
             kk = (lambda: self.block(rest, k)) if (rest or k is not None) else None
             return self.wrap(pend, '(if %s then %s else %s)' % (c, self.block(s.body, kk), self.block(s.orelse, kk)))
         raise Unsupported('statement ' + ast.dump(s)[:80])
 
     def finish(self):
-        for src, n in self.skip.items():
-            if n != 1: raise Unsupported('pinned statement occurs %d times: %s' % (n, src[:70]))
+        for src, ids in self.skip.items():
+            if len(ids) != 1: raise Unsupported('pinned statement occurs %d times: %s' % (len(ids), src[:70]))
+        for src in self.effects:
+            if len(self.effects_seen.get(src, ())) != 1:
+                raise Unsupported('pinned statement occurs %d times: %s' % (len(self.effects_seen.get(src, ())), src[:70]))
 
 
 # ---------- source helpers ----------
@@ -1596,6 +1716,145 @@ def gen_cleartext():
     write('Gen_cleartext.v', '\n'.join(out))
 
 
+# ---------- targets: pgpy/decorators.py KeyAction, the @KeyAction(...) lines of pgpy/pgp.py ----------
+KEY_OPS = ['sign', 'certify', 'revoke', 'revoker', 'bind', 'encrypt', 'decrypt']      # order of Model/Policy.v `oper`
+KEY_ATTRS = {'is_unlocked': 0, 'is_public': 1}                                        # encoding of Model/Policy.v `attr`
+
+
+def gen_policy():
+    dtree = parse('pgpy/decorators.py')
+    ptree = parse('pgpy/pgp.py')
+    ctree = parse('pgpy/constants.py')
+    out = [HDR2 % ('pgpy/decorators.py (KeyAction), pgpy/pgp.py (@KeyAction lines of PGPKey)', '')]
+    ka = find_class(dtree, 'KeyAction')
+
+    def t_table():
+        kf = enum_members(ctree, 'KeyFlags')
+        key = find_class(ptree, 'PGPKey')
+        found = {}
+        for m in key.body:
+            if not isinstance(m, ast.FunctionDef): continue
+            decs = [d for d in m.decorator_list if 'KeyAction' in ast.unparse(d)]
+            if not decs: continue
+            if len(decs) != 1 or len(m.decorator_list) != 1 or m.name in found: raise Unsupported('decorators of PGPKey.' + m.name)
+            d = decs[0]
+            if not (isinstance(d, ast.Call) and ast.unparse(d.func) == 'KeyAction'): raise Unsupported('decorator shape of ' + m.name)
+            flags = 0
+            for a in d.args:
+                u = ast.unparse(a)
+                if not u.startswith('KeyFlags.') or u[9:] not in kf: raise Unsupported('usage flag ' + u)
+                flags |= kf[u[9:]]
+            conds = []
+            for kw in d.keywords:
+                if kw.arg not in KEY_ATTRS or not (isinstance(kw.value, ast.Constant) and isinstance(kw.value.value, bool)):
+                    raise Unsupported('condition %s of %s' % (kw.arg, m.name))
+                conds.append('(%d, %s)' % (KEY_ATTRS[kw.arg], 'true' if kw.value.value else 'false'))
+            found[m.name] = '(%d, [%s])' % (flags, '; '.join(conds))
+        if sorted(found) != sorted(KEY_OPS): raise Unsupported('methods of PGPKey under @KeyAction: ' + repr(sorted(found)))
+        # KeyAction.__init__: flags = set(usage), conditions = the keyword arguments in order
+        pinned(find_method(ka, '__init__').body, ['super(KeyAction, self).__init__()', 'self.flags = set(usage)', 'self.conditions = conditions'],
+               'KeyAction.__init__')
+        return ('(* @KeyAction(flags..., conditions...) above PGPKey.%s: (union of the KeyFlags bits, [(attribute, expected)]) with\n'
+                '   attribute 0 = is_unlocked, 1 = is_public *)\n'
+                'Definition gen_key_actions : list (Z * list (Z * bool)) :=\n [%s].\n' % (' / '.join(KEY_OPS), ';\n  '.join(found[o] for o in KEY_OPS)))
+    guarded(out, '@KeyAction table', t_table)
+
+    def t_check():
+        fn = find_method(ka, 'check_attributes')
+        tr = TrI(raises=True, lists={'self.conditions.items()': ('conds', ('Z', 'bool'))},
+                 atoms=[('getattr(key, attr)', '(getattr_key attr)', 'bool', [])])
+        txt = tr.block(strip_doc(fn.body), k='(GOk tt)')
+        return ('(* KeyAction.check_attributes: getattr_key a = getattr(key, <attribute a>), conds = self.conditions.items() *)\n'
+                'Definition gen_check_attributes (getattr_key : Z -> bool) (conds : list (Z * bool)) : gres unit :=\n %s.\n' % txt)
+    guarded(out, 'KeyAction.check_attributes', t_check)
+
+    def t_usage():
+        fn = find_method(ka, 'usage')
+        if [a.arg for a in fn.args.args] != ['self', 'key', 'user'] or [ast.unparse(d) for d in fn.decorator_list] != ['contextlib.contextmanager']:
+            raise Unsupported('usage: signature changed')
+        body = strip_doc(fn.body)
+        pinned(body[:1], ['def _preiter(first, iterable):\n    yield first\n    for item in iterable:\n        yield item'], 'usage._preiter')
+        if ast.unparse(body[-1]) != 'yield _key': raise Unsupported('usage: does not end with `yield _key`')
+        tr = TrI(names={'key': ('key', 'Z'), 'key._require_usage_flags': ('enforce', 'bool')}, raises=True,
+                 lists={'_preiter(key, key.subkeys.values())': ('(key :: subkeys)', 'Z', 'key')},
+                 atoms=[('len(self.flags)', 'req', 'Z', []),
+                        ('self.flags & set(_key._get_key_flags(user))', '(Z.land req (flags_of _key))', 'Z', []),
+                        ('_key is not key', '(negb (Z.eqb _key key))', 'bool', [])],
+                 skip=['em = {}', "em['keyid'] = key.fingerprint.keyid", "em['flags'] = ', '.join((flag.name for flag in self.flags))",
+                       "warning = 'Key {keyid:s} does not have the required usage flag {flags:s}'.format(**em)",
+                       'logging.warning(warning)',
+                       "if _key is not key:\n    em['subkeyid'] = _key.fingerprint.keyid\n"
+                       "    logging.debug('Key {keyid:s} does not have the required usage flag {flags:s}; using subkey {subkeyid:s}'.format(**em))"])
+        txt = tr.block(body[1:-1] + [ret_stmt('_key')])
+        tr.finish()
+        return ('(* KeyAction.usage: the key object yielded.  Key objects are numbers (key = the receiver, subkeys = key.subkeys.values());\n'
+                '   req = self.flags as a bit set (len(self.flags) is non-zero exactly when a bit is set), flags_of k = the bit set\n'
+                '   k._get_key_flags(user) returns (an exception raised there is outside the translation), enforce = key._require_usage_flags.\n'
+                '   The logging calls and the message strings are pinned text. *)\n'
+                'Definition gen_usage (req : Z) (flags_of : Z -> Z) (enforce : bool) (key : Z) (subkeys : list Z) : gres Z :=\n %s.\n' % txt)
+    guarded(out, 'KeyAction.usage', t_usage)
+
+    def t_call():
+        fn = find_method(ka, '__call__')
+        body = strip_doc(fn.body)
+        if len(body) != 2 or not isinstance(body[0], ast.FunctionDef) or body[0].name != '_action' or ast.unparse(body[1]) != 'return _action':
+            raise Unsupported('__call__ shape')
+        act = body[0]
+        if ast.unparse(act.args) != 'key, *args, **kwargs' or [ast.unparse(d) for d in act.decorator_list] != ['functools.wraps(action)']:
+            raise Unsupported('_action signature')
+        tr = TrI(names={'key': ('key', 'Z'), 'key.is_primary': ('is_primary', 'bool')}, raises=True,
+                 atoms=[('key._key is None', 'no_key', 'bool', []), ('len(key._uids)', 'nuids', 'Z', []),
+                        ('action is not key.certify.__wrapped__', 'not_certify', 'bool', [])],
+                 ratoms=[("self.usage(key, kwargs.get('user', None))", '(gen_usage req flags_of enforce key subkeys)', 'Z', [], None),
+                         ('self.check_attributes(key)', '(gen_check_attributes getattr_key conds)', 'unit', [], None),
+                         ('action(_key, *args, **kwargs)', '(GOk _key)', 'Z', [], None)])
+        txt = tr.block(strip_doc(act.body))
+        return ('(* the wrapper KeyAction.__call__ installs: GOk k = the undecorated method runs on key object k (what it returns or raises\n'
+                '   is outside the translation); no_key = `key._key is None`, nuids = len(key._uids), not_certify = `action is not\n'
+                '   key.certify.__wrapped__` *)\n'
+                'Definition gen_key_action (req : Z) (flags_of : Z -> Z) (enforce : bool) (key : Z) (subkeys : list Z)\n'
+                '  (getattr_key : Z -> bool) (conds : list (Z * bool)) (no_key : bool) (nuids : Z) (is_primary not_certify : bool) : gres Z :=\n %s.\n' % txt)
+    guarded(out, 'KeyAction.__call__', t_call)
+
+    write('Gen_policy.v', '\n'.join(out))
+
+
+# ---------- targets: pgpy/pgp.py PGPKeyring._add_alias ----------
+def gen_keyring():
+    tree = parse('pgpy/pgp.py')
+    out = [HDR2 % ('pgpy/pgp.py (PGPKeyring._add_alias)', '')]
+    kr = find_class(tree, 'PGPKeyring')
+
+    def t_add_alias():
+        fn = find_method(kr, '_add_alias')
+        if [a.arg for a in fn.args.args] != ['self', 'alias', 'pkid']: raise Unsupported('_add_alias signature changed')
+        # the operations on the deque of dicts are pinned statements with a declared effect; the control flow is translated
+        loop = ('for m in self._aliases:\n    if alias not in m:\n        m[alias] = pkid\n        break\nelse:\n'
+                '    self._aliases.appendleft({alias: pkid})')
+        tr = TrI(names={'alias': ('alias', 'A'), 'pkid': ('pkid', 'Z'), 'self._aliases': ('aliases', 'L')}, opaque=['A', 'L'],
+                 atoms=[('alias not in self', '(negb (contains aliases alias))', 'bool', []),
+                        ('alias in self', '(contains aliases alias)', 'bool', []),
+                        ('pkid in set((m[alias] for m in self._aliases if alias in m))', '(has_pid aliases alias pkid)', 'bool', [])],
+                 effects={'self._aliases[-1][alias] = pkid': ('self._aliases', '(set_last aliases alias pkid)', 'L'),
+                          loop: ('self._aliases', '(insert_free aliases alias pkid)', 'L'),
+                          'self._sort_alias(alias)': ('self._aliases', '(sort_alias aliases alias)', 'L')})
+        txt = tr.block(strip_doc(fn.body), k='aliases')
+        tr.finish()
+        return ('Section Keyring.\n'
+                '(* A = alias (str / Fingerprint), L = the deque of dicts self._aliases.  Pinned statements and the operation each stands for:\n'
+                '     contains ls a       `a in self`  (PGPKeyring.__contains__)\n'
+                '     has_pid ls a k      `k in set(m[a] for m in self._aliases if a in m)`\n'
+                '     set_last ls a k     `self._aliases[-1][a] = k`\n'
+                '     insert_free ls a k  the for / break / else: first dict lacking a gets a -> k, else appendleft({a: k})\n'
+                '     sort_alias ls a     `self._sort_alias(a)` *)\n'
+                'Variables A L : Type.\nVariable contains : L -> A -> bool.\nVariable has_pid : L -> A -> Z -> bool.\n'
+                'Variables set_last insert_free : L -> A -> Z -> L.\nVariable sort_alias : L -> A -> L.\n\n'
+                '(* PGPKeyring._add_alias: self._aliases afterwards *)\n'
+                'Definition gen_add_alias (aliases : L) (alias : A) (pkid : Z) : L :=\n %s.\nEnd Keyring.\n' % txt)
+    guarded(out, 'PGPKeyring._add_alias', t_add_alias)
+    write('Gen_keyring.v', '\n'.join(out))
+
+
 def write(name, txt):
     os.makedirs(OUT, exist_ok=True)
     p = os.path.join(OUT, name)
@@ -1607,7 +1866,7 @@ def write(name, txt):
 
 GENS = [('gen_types', 'Gen_types.v'), ('gen_ptypes', 'Gen_ptypes.v'), ('gen_consts', 'Gen_consts.v'),
         ('gen_base', 'Gen_base.v'), ('gen_pgp', 'Gen_pgp.v'), ('gen_tables', 'Gen_tables.v'),
-        ('gen_packets', 'Gen_packets.v'), ('gen_fields', 'Gen_fields.v'), ('gen_cleartext', 'Gen_cleartext.v')]
+        ('gen_packets', 'Gen_packets.v'), ('gen_fields', 'Gen_fields.v'), ('gen_cleartext', 'Gen_cleartext.v'), ('gen_policy', 'Gen_policy.v'), ('gen_keyring', 'Gen_keyring.v')]
 
 
 def main():
